@@ -94,6 +94,11 @@ Section Extraction.
     | None => false
     | Some (u, l) => stop_fires (S k) x (vsub x (vavg u l)) u l
     end.
+
+  (* iterates 0..k-1 all exist, have both envelopes, and the rule did not fire at any of them *)
+  Definition unfired_upto (k : nat) (X : V) : Prop :=
+    forall j, (j < k)%nat ->
+      exists x u l, iterate j X = Some x /\ envs x = Some (u, l) /\ fires_at j x = false.
 End Extraction.
 
 (* ---- the outer loop shared by sift and mask_sift ---------------------------------------- *)
